@@ -874,6 +874,8 @@ pub fn run_all_h(ctx: &Ctx, semantic: bool, hash: bool) -> Report {
     if !hash {
         let w = run_wide(ctx, semantic);
         rep.merge(w);
+        let m = run_mux(ctx, semantic);
+        rep.merge(m);
     }
     rep.distinct_nontrivial = rep.transitions;
     rep.bound("vtrees", json!({"n=3": "all 12, all functions, all ordered pairs", "n=2": "both", "n=4 operand pool (cubes, clauses, functions of <= 2 variables), all ordered pairs": "all 120 vtrees", "n=4 all functions": if ctx.tier == Tier::Quick {"6 of 120 vtrees, all functions in 16 residue-class builders each, pair stride 509"} else {"all 120 vtrees, compression on/off, all functions in 16 residue-class builders each, pair stride 127 inside a class"}, "n=5 operand pool": if ctx.tier == Tier::Quick {"56 vtrees (14 shapes x 4 leaf orders), all unary operations, pair stride 31"} else {"14 shapes x identity/reversed leaf order + every 97th other vtree, all ordered pairs"}}));
@@ -1091,10 +1093,127 @@ pub fn worker_batch(ctx: &Ctx, input: &Value) -> Report {
     rep
 }
 
+// ---------------------------------------------------------------------------------------------
+// many-element decision nodes: multiplexers over 8 variables (6 on the prime side of the root,
+// 2 on the sub side), so that one apply hands 64 products to the compression step
+
+fn mux_sweep<'a, B: SddBuilder<'a>>(b: &'a B, cfg: &SCfg) -> Report {
+    let mut rep = Report::default();
+    rep.exhaustive = true;
+    let pf = cfg.prop_fn();
+    let lit = |v: usize, pol: bool| b.var(VarLabel::new(v as u64), pol);
+    // g_k(x6, x7): the 2-variable function with table k
+    let g2 = |k: usize| -> SddPtr<'a> {
+        let mut acc = SddPtr::PtrFalse;
+        for r in 0..4usize {
+            if (k >> r) & 1 == 1 {
+                let m = b.and(lit(6, r & 1 == 1), lit(7, r & 2 == 2));
+                acc = b.or(acc, m);
+            }
+        }
+        acc
+    };
+    // mux over the selector variables base..base+2 with data functions g_{(s*mul+off) % 16}
+    let mux = |base: usize, mul: usize, off: usize| -> SddPtr<'a> {
+        let mut acc = SddPtr::PtrFalse;
+        for s in 0..8usize {
+            let sel = b.and(b.and(lit(base, s & 1 == 1), lit(base + 1, s & 2 == 2)), lit(base + 2, s & 4 == 4));
+            acc = b.or(acc, b.and(sel, g2((s * mul + off) % 16)));
+        }
+        acc
+    };
+    let mux_val = |a: u64, base: usize, mul: usize, off: usize| -> bool {
+        let s = ((a >> base) & 7) as usize;
+        let k = (s * mul + off) % 16;
+        let r = (((a >> 6) & 1) | (((a >> 7) & 1) << 1)) as usize;
+        (k >> r) & 1 == 1
+    };
+    let check = |r: Result<SddPtr<'a>, String>, want: &dyn Fn(u64) -> bool, what: String, rep: &mut Report| {
+        rep.transitions += 1;
+        let case = json!({"kind": "sdd_mux", "cfg": cfg.json(), "op": what});
+        match r {
+            Err(p) => rep.violation(format!("{}:panic", pf), format!("{} [{}] panicked: {}", what, cfg.json(), p), case),
+            Ok(r) => {
+                for a in 0..256u64 {
+                    if sdd_eval(r, a) != want(a) {
+                        rep.violation(format!("{}:wrong-function", pf), format!("{} [{}]: the result is {} under assignment {:#010b}, the definition gives {}", what, cfg.json(), sdd_eval(r, a), a, want(a)), case);
+                        break;
+                    }
+                }
+            }
+        }
+    };
+    for c in 0..4usize {
+        let f = match guarded(|| mux(0, 5, c)) {
+            Ok(x) => x,
+            Err(e) => {
+                rep.violation(format!("{}:panic", pf), format!("building a multiplexer panicked: {}", e), json!({"kind": "sdd_mux", "cfg": cfg.json(), "op": "build"}));
+                return rep;
+            }
+        };
+        check(Ok(f), &|a| mux_val(a, 0, 5, c), format!("mux(x0..x2; {})", c), &mut rep);
+        for d in 0..4usize {
+            let h = match guarded(|| mux(3, 3, d)) {
+                Ok(x) => x,
+                Err(e) => {
+                    rep.violation(format!("{}:panic", pf), format!("building a multiplexer panicked: {}", e), json!({"kind": "sdd_mux", "cfg": cfg.json(), "op": "build"}));
+                    return rep;
+                }
+            };
+            let (fv, hv) = (|a: u64| mux_val(a, 0, 5, c), |a: u64| mux_val(a, 3, 3, d));
+            check(guarded(|| b.and(f, h)), &|a| fv(a) && hv(a), format!("And(mux {}, mux' {})", c, d), &mut rep);
+            check(guarded(|| b.or(f, h)), &|a| fv(a) || hv(a), format!("Or(mux {}, mux' {})", c, d), &mut rep);
+            check(guarded(|| b.and(f.neg(), h)), &|a| !fv(a) && hv(a), format!("And(!mux {}, mux' {})", c, d), &mut rep);
+            if !cfg.semantic {
+                check(guarded(|| b.xor(f, h)), &|a| fv(a) != hv(a), format!("Xor(mux {}, mux' {})", c, d), &mut rep);
+                check(guarded(|| b.iff(f, h)), &|a| fv(a) == hv(a), format!("Iff(mux {}, mux' {})", c, d), &mut rep);
+                check(guarded(|| b.ite(f, h, h.neg())), &|a| fv(a) == hv(a), format!("Ite(mux {}, mux' {}, !mux')", c, d), &mut rep);
+            }
+            for v in [0usize, 4, 6] {
+                let l = VarLabel::new(v as u64);
+                let fh = guarded(|| b.and(f, h));
+                if let Ok(fh) = fh {
+                    check(guarded(|| b.condition(fh, l, true)), &|a| { let a1 = a | (1 << v); fv(a1) && hv(a1) }, format!("Cond(And(mux {}, mux' {}), {}, true)", c, d, v), &mut rep);
+                    check(guarded(|| b.exists(fh, l)), &|a| { let (a0, a1) = (a & !(1 << v), a | (1 << v)); (fv(a0) && hv(a0)) || (fv(a1) && hv(a1)) }, format!("Exists(And(mux {}, mux' {}), {})", c, d, v), &mut rep);
+                }
+            }
+            if rep.n_violations > 8 {
+                return rep;
+            }
+        }
+    }
+    rep.states = 16;
+    rep.traces = 1;
+    rep.evaluations = rep.transitions * 256;
+    rep.add_extra("configurations", 1);
+    rep
+}
+
+pub fn run_mux_cfg(cfg: &SCfg) -> Report {
+    with_sdd_builder!(cfg, |b| mux_sweep(&b, cfg))
+}
+
+pub fn run_mux(ctx: &Ctx, semantic: bool) -> Report {
+    let lefts = ["(0 (1 (2 (3 (4 5)))))", "(((((0 1) 2) 3) 4) 5)", "((0 (1 2)) (3 (4 5)))", "((3 (0 4)) (1 (5 2)))"];
+    let mut items: Vec<SCfg> = Vec::new();
+    for (i, l) in lefts.iter().enumerate() {
+        let vt = VT::parse(&format!("({} (6 7))", l)).unwrap();
+        for &compress in (if semantic { vec![false] } else { vec![true, false] }).iter() {
+            items.push(SCfg { n: 8, vtree: vt.clone(), compress, semantic, table_cap: 2, issue: i, ite_pool: 0, pair_stride: 0, cold_stride: 0, pool: 0, hash: false, slice: (0, 1) });
+        }
+    }
+    let mut r = par_run(ctx, &items, |_, c| run_mux_cfg(c));
+    r.bound("multiplexers_8_variables", json!({"vtrees": lefts.len(), "prime_side_variables": 6, "sub_side_variables": 2, "function_pairs": 16, "operations": "and/or/xor/iff/ite, condition, exists; every result evaluated on all 256 assignments"}));
+    r.add_extra("mux8_operations", r.transitions);
+    r
+}
+
 pub fn replay_for(ctx: &Ctx, prop: &str, case: &Value) -> Report {
     let mut rep = Report::default();
     if let Some(cfg) = SCfg::from_json(&case["cfg"]) {
-        if case["kind"].as_str() == Some("sdd_wide") {
+        if case["kind"].as_str() == Some("sdd_mux") {
+            rep.merge(run_mux_cfg(&cfg));
+        } else if case["kind"].as_str() == Some("sdd_wide") {
             let m: Vec<usize> = case["map"].as_array().map(|a| a.iter().filter_map(|x| x.as_u64()).map(|x| x as usize).collect()).unwrap_or_default();
             if m.len() == 3 {
                 rep.merge(run_wide_cfg(&cfg, &m));
